@@ -441,7 +441,9 @@ func (dbb *DialogBasedBackend) AddBackend(dialog string, backend Backend, expire
 	expire := time.Now().Add(timeout)
 	dbb.backends[dialog] = &ExpireBackend{backend: backend, expire: expire}
 	if dbb.nextCleanTime.Before(time.Now()) {
-		dbb.nextCleanTime = expire
+		// the next sweep is due one dialog timeout from now, not at the expiry of the entry
+		// that happens to be added (its Expires may lie years ahead)
+		dbb.nextCleanTime = time.Now().Add(dbb.timeout)
 		dbb.cleanExpiredDialog()
 	}
 }
